@@ -18,6 +18,8 @@ import (
 var hostileKinds = []string{"garbage", "badlogin", "mutreq", "badframe", "xfer-garbage", "xfer-upload", "stall", "burst", "xfer-folder", "halfhandshake"}
 
 func genC03(rng *rand.Rand, c *Case) {
+	// a sixth of the cases make every function entry of the server a scheduling point (races on lock-free shared state)
+	c.Cfg["fnyield"] = rng.Intn(6) / 5
 	c.Cfg["policy"] = rng.Intn(3)
 	c.Cfg["seg_c2s"] = rng.Intn(3)
 	c.Cfg["sentinels"] = 1 + rng.Intn(3)
